@@ -284,6 +284,36 @@ def copy_harness(vname, s):
     return harness
 
 
+def frozen_members_harness(ex):
+    """sets of frozensets: like the built-in set, a mutable set is accepted as the spelling of an equal frozenset member by the
+    element operations (membership, remove, discard) - same result, same event discipline"""
+    events = []
+    members = [frozenset({1}), frozenset({1, 2}), frozenset(), 5]
+    ts = tso.TraitSet(members, notifiers=[lambda s_, removed, added: events.append((set(removed), set(added)))])
+    ref = set(members)
+    arg = [{1}, {1, 2}, set(), {9}, frozenset({1}), 5, 7][ex.choice("argument", 7)]
+    op = ["remove", "discard", "add"][ex.choice("op", 3)]
+    before = set(ts)
+    exc_t = exc_r = None
+    try:
+        getattr(ts, op)(arg)
+    except EXC as e:
+        exc_t = type(e).__name__
+    try:
+        getattr(ref, op)(arg)
+    except EXC as e:
+        exc_r = type(e).__name__
+    ex.check(exc_t == exc_r, "same exception class as set")
+    ex.check(set(ts) == ref, "contents equal the built-in set's after the same operation on validated items")
+    if exc_t is not None:
+        ex.check(set(ts) == before and events == [], "failing operation changes nothing")
+    if set(ts) != before:
+        ex.check(len(events) == 1 and (before - events[0][0]) | events[0][1] == set(ts), "exactly one event for a content change")
+    else:
+        ex.check(events == [], "operation that changes nothing is silent")
+    return {"op": op}
+
+
 class SetOwner(HasTraits):
     """module level: picklable"""
     s = Set(Int)
@@ -459,6 +489,9 @@ def obligations(tier, build):
                                   make_harness(op, s, (1,), ("set",), "reject", factory=falsy),
                                   bounds={"stored elements s": s, "owner": "falsy (defines __bool__ / __len__)"},
                                   leverage="validity of symbolic elements", **common))
+    obs.append(Obligation("frozenset-members", frozen_members_harness,
+                          bounds={"members": "frozensets and an int", "arguments": "mutable sets equal / unequal to members, frozenset, ints",
+                                  "operations": ["remove", "discard", "add"]}, leverage="choice feasibility only", stubs=[]))
     for s in (0, 2):
         obs.append(Obligation("owned-copy/s=%d" % s, owned_copy_harness(s),
                               bounds={"stored elements": s, "copiers": OWNED_COPIERS, "history before the copy": "none/add/remove"},
